@@ -152,6 +152,103 @@ theorem restore_label_target (pre post : List Ev) (l : String) (its : List DItem
     simpa [flat] using hflat
 
 
+/-- RESTORE with a label, at full strength: wherever the label stands - followed by a DATA statement, by other labels first,
+    or by no DATA at all - the index the compiler pushes (as repaired) is a part index from which the data section lists
+    exactly the items of the DATA statements after the label, in source order -/
+theorem restore_label_general : ∀ (post pre : List Ev) (l : String),
+    (labels (pre ++ .label l :: post)).Nodup →
+    labelTarget (groupData (pre ++ .label l :: post)) (labelOrder (pre ++ .label l :: post)) l
+        ≤ (parts (pre ++ .label l :: post)).length ∧
+    ((parts (pre ++ .label l :: post)).drop
+        (labelTarget (groupData (pre ++ .label l :: post)) (labelOrder (pre ++ .label l :: post)) l)).flatten
+      = allItems post := by
+  intro post
+  induction post with
+  | nil =>
+    intro pre l hnd
+    have hlab : labels (pre ++ [.label l]) = labels pre ++ [l] := by simp [labels_append, labels]
+    rw [hlab] at hnd
+    have hl_notpre : l ∉ labels pre := fun hm => (List.nodup_append.mp hnd).2.2 l hm l (by simp) rfl
+    have hgd : groupData (pre ++ [.label l]) = groupData pre := by
+      unfold groupData; rw [groupFrom_append]; simp [groupFrom]
+    have hnk : some l ∉ keys (groupData pre) := by
+      intro hm
+      rcases keys_groupData pre _ hm with h | ⟨l', hl', h⟩
+      · cases h
+      · injection h with h; subst h; exact hl_notpre hl'
+    have hord : ((labelOrder (pre ++ [.label l])).dropWhile (· != l)).drop 1 = [] := by
+      rw [labelOrder_eq_labels, hlab]; exact after_first_occurrence _ _ _ hl_notpre
+    have ht : labelTarget (groupData (pre ++ [.label l])) (labelOrder (pre ++ [.label l])) l = (groupData pre).length := by
+      unfold labelTarget
+      rw [hord, hgd, labelIndex_none _ _ hnk]
+      rfl
+    rw [ht]
+    refine ⟨by simp [parts, hgd], ?_⟩
+    simp only [parts, hgd, allItems]
+    rw [List.drop_of_length_le (by simp)]
+    rfl
+  | cons e post' ih =>
+    intro pre l hnd
+    cases e with
+    | data its =>
+      obtain ⟨i, h1, h2, h3⟩ := restore_label_target pre post' l its hnd
+      have ht : labelTarget (groupData (pre ++ .label l :: .data its :: post'))
+          (labelOrder (pre ++ .label l :: .data its :: post')) l = i := by
+        unfold labelTarget; rw [h1]
+      rw [ht]
+      exact ⟨h2, by simpa [allItems] using h3⟩
+    | label l2 =>
+      have hsplit : pre ++ .label l :: .label l2 :: post' = (pre ++ [.label l]) ++ .label l2 :: post' := by simp
+      have hlab : labels (pre ++ .label l :: .label l2 :: post') = labels pre ++ l :: l2 :: labels post' := by
+        simp [labels_append, labels]
+      have hnd0 := hnd
+      rw [hlab] at hnd
+      obtain ⟨_, hrest, hdisj⟩ := List.nodup_append.mp hnd
+      have hl_notpre : l ∉ labels pre := fun hm => hdisj l hm l (by simp) rfl
+      have hl2_notpre : l2 ∉ labels pre := fun hm => hdisj l2 hm l2 (by simp) rfl
+      simp only [List.nodup_cons, List.mem_cons, not_or] at hrest
+      obtain ⟨⟨hne, hl_notpost⟩, hl2_notpost, _⟩ := hrest
+      -- `l` has no group of its own
+      have hnk : some l ∉ keys (groupData (pre ++ .label l :: .label l2 :: post')) := by
+        intro hm
+        have hg : groupData (pre ++ .label l :: .label l2 :: post') = groupFrom (some l2) (groupData pre) post' := by
+          unfold groupData; rw [groupFrom_append]; simp [groupFrom]
+        rw [hg] at hm
+        rcases keys_groupFrom post' (some l2) (groupData pre) _ hm with h | h | ⟨l', hl', h⟩
+        · rcases keys_groupData pre _ h with h' | ⟨l', hl', h'⟩
+          · cases h'
+          · injection h' with h'; subst h'; exact hl_notpre hl'
+        · injection h with h; exact hne h
+        · injection h with h; subst h; exact hl_notpost hl'
+      -- the labels after `l` are `l2` and the labels after `l2`
+      have hord : ((labelOrder (pre ++ .label l :: .label l2 :: post')).dropWhile (· != l)).drop 1 = l2 :: labels post' := by
+        rw [labelOrder_eq_labels, hlab]; exact after_first_occurrence _ _ _ hl_notpre
+      have hord2 : ((labelOrder (pre ++ .label l :: .label l2 :: post')).dropWhile (· != l2)).drop 1 = labels post' := by
+        rw [labelOrder_eq_labels, hlab]
+        have : labels pre ++ l :: l2 :: labels post' = (labels pre ++ [l]) ++ l2 :: labels post' := by simp
+        rw [this]
+        refine after_first_occurrence _ _ _ ?_
+        intro hm
+        rcases List.mem_append.mp hm with h | h
+        · exact hl2_notpre h
+        · simp at h; exact hne h.symm
+      have ht : labelTarget (groupData (pre ++ .label l :: .label l2 :: post'))
+            (labelOrder (pre ++ .label l :: .label l2 :: post')) l =
+          labelTarget (groupData (pre ++ .label l :: .label l2 :: post'))
+            (labelOrder (pre ++ .label l :: .label l2 :: post')) l2 := by
+        unfold labelTarget
+        rw [labelIndex_none _ _ hnk, hord, hord2]
+        rfl
+      rw [ht, hsplit]
+      have := ih (pre ++ [.label l]) l2 (by rw [← hsplit]; exact hnd0)
+      simpa [allItems] using this
+
+/-- before the repair the compiler had no index for a label without a group of its own (`list.index` raised ValueError) -/
+theorem restore_label_without_group_had_no_index :
+    labelIndex (groupData [.label "foo", .label "bar", .data [.str ['1']]]) "foo" = none ∧
+    labelTarget (groupData [.label "foo", .label "bar", .data [.str ['1']]])
+      (labelOrder [.label "foo", .label "bar", .data [.str ['1']]]) "foo" = 0 := by decide
+
 /-! ### RESTORE without a label
 
 `gen_restore_stmt` pushes 0 for a RESTORE without label (as repaired: it pushed -1, which `_exec_restore` stored in
